@@ -33,7 +33,8 @@ class IterSim(Sim):
     PROBES = ["two_live_cursors_one_tensor", "three_live_cursors", "nested_for_same_tensor", "nested_for_depth3", "nested_for_two_tensors",
               "zip_same_tensor", "list_during_live_iteration", "getitem_during_live_iteration", "abandoned_then_restarted", "exhausted_cursor_polled_again",
               "rank0_refuses_iteration", "empty_first_dim", "rows_in_backward", "unpack", "len_during_iteration", "iteration_of_op_result",
-              "state_changed_between_iterations", "iteration_of_strided_view", "several_rows_held", "index_kind_bool", "index_kind_out_of_range", "index_kind_float"]
+              "state_changed_between_iterations", "iteration_of_strided_view", "several_rows_held", "index_kind_bool", "index_kind_out_of_range", "index_kind_float",
+              "index_kind_slice_step", "index_kind_index_array", "index_array_reused", "iterator_passed_to_iter_again", "advanced_iterator_consumed_by_loop"]
     RULE = ("one run = tensors plus a seeded interleaving of iter/next/drop on several cursors with nested for-loops, list/zip/unpack/len/index "
             "events; distinct = hash of (number of cursors, order of new/next/drop and loop events); non-trivial = two cursors over one tensor "
             "were live at once, or a nested loop over one tensor ran")
@@ -48,6 +49,7 @@ class IterSim(Sim):
         st.SG = st.world.SG
         st.T = {}
         st.its = {}      # it -> {"obj", "t", "pos", "done"}
+        st.keys = {}     # kid -> index array owned by the caller
         st.next_it = 0
         return st
 
@@ -64,8 +66,11 @@ class IterSim(Sim):
         r = rng.random()
         if r < 0.22 or not live:
             return {"k": "iter_new", "it": st.next_it, "t": rng.choice(tids)}
-        if r < 0.62:
+        if r < 0.58:
             return {"k": "iter_next", "it": rng.choice(live)}
+        if r < 0.62:
+            # the iterator object itself is handed to iter() / a for-loop / list() after it was advanced (skip a header row, then loop over the rest)
+            return {"k": "iter_resume", "it": rng.choice(live), "how": rng.choice(["iter", "for_rest", "list_rest", "for_break"]), "take": rng.randint(1, 2)}
         if r < 0.67:
             return {"k": "iter_drop", "it": rng.choice(live)}
         if r < 0.75:
@@ -78,7 +83,18 @@ class IterSim(Sim):
         if r < 0.89:
             t = rng.choice(tids)
             n = st.T[t].data.shape[0] if st.T[t].data.ndim else 0
-            kind = rng.choice(["int", "int", "slice", "bool", "npint", "out_of_range", "float", "none", "ellipsis"])
+            kind = rng.choice(["int", "int", "slice", "bool", "npint", "out_of_range", "float", "none", "ellipsis", "slice_step", "slice_step", "index_array", "index_array"])
+            if kind == "slice_step":
+                lim = [None, None] + list(range(-n - 2, n + 3))
+                return {"k": "getitem", "t": t, "kind": kind, "i": 0, "j": 0, "key": [rng.choice(lim), rng.choice(lim), rng.choice([-1, -1, -2, -3, 2, 3, None])]}
+            if kind == "index_array":
+                # an index array the caller keeps and re-uses for several lookups (possibly with negative or out-of-range entries)
+                if getattr(st, "keys", None) and rng.random() < 0.5:
+                    return {"k": "getitem", "t": t, "kind": kind, "i": 0, "j": 0, "kid": rng.choice(sorted(st.keys))}
+                m = rng.randint(1, 4)
+                lo, hi = (-n, n - 1) if (n and rng.random() < 0.7) else (-n - 2, n + 1)
+                return {"k": "getitem", "t": t, "kind": kind, "i": 0, "j": 0, "kid": len(getattr(st, "keys", {})),
+                        "vals": [rng.randint(lo, hi) for _ in range(m)], "dt": rng.choice(["i8", "i8", "i4"])}
             i = rng.randrange(-n, n) if n else 0
             if kind == "out_of_range":
                 i = rng.choice([n, n + 1, -n - 1, -2 * n, -2 * n - 1, 2 * n]) if n else 0
@@ -86,7 +102,7 @@ class IterSim(Sim):
         if r < 0.91:
             return {"k": "len", "t": rng.choice(tids)}
         if r < 0.93:
-            return {"k": "unpack", "t": rng.choice(tids)}
+            return {"k": "unpack", "t": rng.choice(tids), "star": rng.random() < 0.4}
         if r < 0.96:
             return {"k": "rows_backward", "t": rng.choice(tids)}
         # the tensor's state changes between (or during) iterations through documented calls: later iterations must show the CURRENT rows
@@ -204,6 +220,49 @@ class IterSim(Sim):
         if len(held) >= 2:
             st.probes["several_rows_held"] += 1
         c["pos"] += 1
+
+    def _ev_iter_resume(self, st, ev):
+        c = st.its.get(ev["it"])
+        if c is None:
+            st.skipped += 1
+            return
+        t = st.T[c["t"]]
+        n = t.data.shape[0]
+        how = ev["how"]
+        pos = c["pos"]
+        if how == "iter":
+            # iter(iterator) is the iterator protocol's "return self": the cursor goes on where it was
+            c["obj"] = st.must("C05.iteration", "iter(iterator)", iter, c["obj"])
+            st.probes["iterator_passed_to_iter_again"] += 1
+            return
+        got = []
+        try:
+            with quiet():
+                if how == "list_rest":
+                    got = list(c["obj"])
+                else:
+                    for row in c["obj"]:
+                        got.append(row)
+                        if how == "for_break" and len(got) >= ev["take"]:
+                            break
+        except Exception as e:
+            st.fail("C05.iteration", f"looping over an advanced iterator raised {type(e).__name__}: {e}")
+        st.probes["advanced_iterator_consumed_by_loop"] += 1
+        if pos > 0:
+            st.nontrivial = True
+        want_n = (n - pos) if how != "for_break" else min(ev["take"], n - pos)
+        if c["done"]:
+            want_n = 0
+        if len(got) != max(0, want_n):
+            st.fail("C05.iteration", f"an iterator over tensor {c['t']} (n={n}) that had yielded {pos} rows gave {len(got)} more rows to a "
+                    f"{'for-loop' if how != 'list_rest' else 'list()'}, expected {max(0, want_n)} (the rest)", tensor=c["t"])
+        for k, row in enumerate(got):
+            if not self._same(row, self._row(t, pos + k)):
+                st.fail("C05.iteration", f"an iterator over tensor {c['t']} that had yielded {pos} rows continued with something else than row {pos + k}", tensor=c["t"])
+        c["pos"] = pos + len(got)
+        c.setdefault("held", []).extend(got)
+        if how != "for_break" or len(got) < ev["take"]:
+            c["done"] = True          # the loop ran the iterator to exhaustion
 
     def _ev_iter_drop(self, st, ev):
         c = st.its.pop(ev["it"], None)
@@ -329,7 +388,20 @@ class IterSim(Sim):
         i = ev["i"]
         if kind in ("int", "npint", "float", "slice"):
             i = max(-n, min(n - 1, i))
-        if kind == "slice":
+        kept_key = None
+        if kind == "slice_step":
+            key = slice(*ev["key"])
+        elif kind == "index_array":
+            if ev["kid"] not in st.keys:
+                if "vals" not in ev:
+                    st.skipped += 1
+                    return
+                st.keys[ev["kid"]] = np.array(ev["vals"], dtype=np.int64 if ev.get("dt", "i8") == "i8" else np.int32)
+            else:
+                st.probes["index_array_reused"] += 1
+            key = st.keys[ev["kid"]]
+            kept_key = key.tobytes()
+        elif kind == "slice":
             key = slice(min(i % n, ev["j"]), ev["j"])
         elif kind == "bool":
             key = bool(ev.get("b"))            # numpy semantics: a new leading axis of length 1 (True) or 0 (False)
@@ -352,9 +424,13 @@ class IterSim(Sim):
             with quiet():
                 got = t[key]
         except Exception as e:
+            if kept_key is not None and st.keys[ev["kid"]].tobytes() != kept_key:
+                st.fail("C05.indexing", f"a refused lookup t[index array] changed the caller's index array (now {st.keys[ev['kid']].tolist()})", tensor=ev["t"])
             if want is not None:
                 st.fail("C05.indexing", f"t[{key!r}] on tensor {ev['t']} (first dim {n}) raised {type(e).__name__}; NumPy returns an array of shape {np.asarray(want).shape}", tensor=ev["t"])
             return
+        if kept_key is not None and st.keys[ev["kid"]].tobytes() != kept_key:
+            st.fail("C05.indexing", f"the lookup t[index array] changed the caller's index array (now {st.keys[ev['kid']].tolist()})", tensor=ev["t"])
         if want is None:
             st.fail("C05.indexing", f"t[{key!r}] on tensor {ev['t']} (first dim {n}) was answered with a tensor of shape {tuple(got.data.shape)}; "
                     "the index cannot be honoured and must be rejected", tensor=ev["t"])
@@ -379,7 +455,13 @@ class IterSim(Sim):
             st.skipped += 1
             return
         try:
-            a, b, c = t
+            if ev.get("star"):
+                a, *rest = t
+                if len(rest) != 2:
+                    st.fail("C05.iteration", f"first, *rest = t on a tensor with 3 rows bound {len(rest)} rows to rest")
+                b, c = rest
+            else:
+                a, b, c = t
         except Exception as e:
             st.fail("C05.iteration", f"unpacking a tensor with 3 rows raised {type(e).__name__}: {e}")
         st.probes["unpack"] += 1
